@@ -107,7 +107,8 @@ def step (c : Cl) (line : String) : Cl × String :=
      | none => (c, "bad-op")
      | some (k, n) =>
        if !n.up then (c, "bad-op") else
-       let c := c.setNode k { n with up := false, eng := { n.eng with primary := false } }
+       -- Store.Close: the lease monitor leaves its role loop and recovers once more
+       let c := c.setNode k { n with up := false, eng := recoverEng { n.eng with primary := false } }
        let c := if c.holder = some k then { c.recoverOthers k with holder := none } else c
        (settle c, "ok"))
   | ["allow", k] =>
